@@ -24,6 +24,11 @@ const (
 	maxClockSkew = 900 * time.Second
 )
 
+type cachedRevocationStatus struct {
+	status  core.RevocationStatus
+	expires time.Time
+}
+
 type OCSPRevocationChecker struct {
 	ocspConfig *config.OCSPConfig
 	logger     *zap.Logger
@@ -31,11 +36,12 @@ type OCSPRevocationChecker struct {
 }
 
 func (c *OCSPRevocationChecker) IsRevoked(clientCertificate *x509.Certificate, verifiedChains [][]*x509.Certificate) (*core.RevocationStatus, error) {
-	subjectRDNSequence, err := asn1parser.ParseSubjectRDNSequence(clientCertificate)
+	//a certificate is identified by its issuer and serial number
+	issuer, err := asn1parser.ParseIssuerRDNSequence(clientCertificate)
 	if err != nil {
 		return nil, err
 	}
-	cacheKey := subjectRDNSequence.String() + "_" + clientCertificate.SerialNumber.String()
+	cacheKey := issuer.String() + "_" + clientCertificate.SerialNumber.String()
 	cache, err := c.tryGetResponseFromCache(cacheKey)
 	if err == nil {
 		return cache, nil
@@ -45,10 +51,6 @@ func (c *OCSPRevocationChecker) IsRevoked(clientCertificate *x509.Certificate, v
 
 	chains := core.NewCertificateChains(verifiedChains, c.ocspConfig.TrustedResponderCerts)
 	//TODO Support AIA via clientCertificate.IssuingCertificateURL
-	issuer, err := asn1parser.ParseIssuerRDNSequence(clientCertificate)
-	if err != nil {
-		return nil, err
-	}
 	certCandidates, err := core.FindCertificateIssuerCandidates(issuer, &clientCertificate.Extensions, clientCertificate.PublicKeyAlgorithm, chains)
 	ocspServerList := c.filterHTTPOCSPServers(clientCertificate.OCSPServer)
 	var output []byte = nil
@@ -81,7 +83,7 @@ func (c *OCSPRevocationChecker) IsRevoked(clientCertificate *x509.Certificate, v
 			}
 			evictionTime := c.calculateEvictionTime(ocspResponse)
 			if evictionTime > 0 {
-				c.cache.Add(cacheKey, evictionTime, revocationStatus)
+				c.cache.Add(cacheKey, evictionTime, cachedRevocationStatus{revocationStatus, time.Now().Add(evictionTime)})
 			}
 			return &revocationStatus, nil
 		}
@@ -201,8 +203,13 @@ func (c *OCSPRevocationChecker) tryGetResponseFromCache(cacheKey string) (*core.
 	// Let's retrieve the item from the cache.
 	res, err := c.cache.Value(cacheKey)
 	if err == nil {
-		response := res.Data().(core.RevocationStatus)
-		return &response, nil
+		cached := res.Data().(cachedRevocationStatus)
+		//the cache renews the lifetime of an item on every access, the response itself is only valid for a fixed time
+		if time.Now().After(cached.expires) {
+			_, _ = c.cache.Delete(cacheKey)
+			return nil, errors.New("cached ocsp response is expired")
+		}
+		return &cached.status, nil
 	} else {
 		return nil, err
 	}
